@@ -700,18 +700,26 @@ def range_header(form, a, b):
     return {"first-last": "bytes=%d-%d" % (a, b), "first-": "bytes=%d-" % a, "-suffix": "bytes=-%d" % a}[form]
 
 
+# Range: bytes=-N with N larger than a non-empty file: RFC 7233 2.1 selects the whole file, webob answers 416 (Range.range_for_length
+# leaves start + length negative; pinned by tests/test_byterange.py::test_not_satisfiable, same cause as C06's finding)
+SUFFIX_416 = "range:suffix-longer-than-file-416"
+
+
 def rfc_slice(form, a, b, n):
-    """RFC 7233 2.1 for a single range on an n-byte representation: (start, stop) | 'unsat' | 'ignore' | 'c06'.
-    'c06': corner owned by property C06 (suffix-length 0 or longer than the file): any self-consistent answer."""
+    """RFC 7233 2.1 for a single range on an n-byte representation: (start, stop) | 'unsat' | 'ignore' | 'zero'.
+    'zero': suffix-length 0 selects no byte: unsatisfiable (416), or the header is ignored (200, "a server MAY ignore the Range
+    header"); never a 206.  A suffix longer than a non-empty file selects all of it; on an empty file nothing is satisfiable."""
     if form == "first-last":
         if a > b:
             return "ignore"
         return (a, min(b + 1, n)) if a < n else "unsat"
     if form == "first-":
         return (a, n) if a < n else "unsat"
-    if a == 0 or a > n:
-        return "c06"
-    return (n - a, n)
+    if a == 0:
+        return "zero"
+    if n == 0:
+        return "unsat"
+    return (max(0, n - a), n)
 
 
 def check_file_response(content, method, rh, res, expect=None, allow304=False):
@@ -752,9 +760,16 @@ def check_file_response(content, method, rh, res, expect=None, allow304=False):
         got = "unsat"
     else:
         return ("fileapp:wrong-status", "%s Range=%r on a readable file answered %d" % (method, rh, st))
-    if expect is not None and expect != "c06":
+    if expect == "zero":
+        if got not in ("full", "unsat"):
+            return ("fileapp:wrong-range-served", "%s Range=%r (suffix-length 0) on %d bytes: served %r" % (method, rh, n, got))
+    elif expect is not None and expect != "c06":          # "c06": replay files written before the suffix corner was classified
         want = "full" if expect == "ignore" else expect
         if got != want:
+            ms = re.fullmatch(r"bytes=-(\d+)", rh or "")
+            if ms and int(ms.group(1)) > n > 0 and got == "unsat" and want == (0, n):
+                return (SUFFIX_416, "%s Range=%r on a %d-byte file: 416 with Content-Range */%d; the suffix is longer than the file, so "
+                        "the requested slice is the whole file (206 bytes 0-%d/%d)" % (method, rh, n, n, n - 1, n))
             return ("fileapp:wrong-range-served", "%s Range=%r on %d bytes: served %r, the requested slice is %r"
                     % (method, rh, n, got, want))
     return None
@@ -1145,7 +1160,8 @@ def run_file_history(T, steps, record=None):
 
 
 def hkey(k):
-    return k if k.startswith("history:") else "history:" + k
+    # the classified finding keeps its key wherever it is met (it does not depend on the history)
+    return k if k.startswith("history:") or k == SUFFIX_416 else "history:" + k
 
 
 def _short(r):
@@ -1938,10 +1954,10 @@ def _run(ctx, T, mat):
                             res = file_case(T, content, meth, rh, bs, wr, None, None, shape)
                             nC += 1
                             m = check_file_response(content, meth, rh, res, exp)
-                            if exp == "c06" and not m:
+                            if form == "-suffix" and (a == 0 or a > n) and not isinstance(res, fw.Err):
                                 k6 = "%s on a %s file -> %d" % ("bytes=-0" if a == 0 else "bytes=-N (N > size)",
                                                                 "non-empty" if n else "empty", res[0])
-                                c6 = ctx.extra.setdefault("c06_corner", {})
+                                c6 = ctx.extra.setdefault("suffix_corner", {})
                                 c6[k6] = c6.get(k6, 0) + 1
                             if m:
                                 ctx.fail(m[0], m[1], {"kind": "fileapp", "content": content.hex(), "method": meth, "range": rh,
@@ -2123,8 +2139,9 @@ def _run(ctx, T, mat):
         "PATH_INFO is NUL-free and decodable; index_page is None/'' or a plain file name (no separator, not '.' or '..')",
         "POSIX os.path (posixpath); the process cwd is an absolute normalised path",
         "requests carry no If-None-Match / If-Modified-Since / If-Range (conditional GET is property C06); the mapping from Range header text to "
-        "(start, end) is Range.parse, taken from the implementation (C06/C12); for suffix ranges of length 0 or longer than the file any "
-        "self-consistent answer is accepted here (observed answers are listed in evidence coverage.c06_corner)",
+        "(start, end) is Range.parse, taken from the implementation (C06/C12); a suffix range of length 0 may be answered 416 or ignored "
+        "(200); a suffix longer than a non-empty file must serve the whole file (the 416 webob gives is classified under key "
+        "range:suffix-longer-than-file-416; observed answers in evidence coverage.suffix_corner)",
         "file.read(n) returns between 1 and n bytes unless at EOF; a wsgi.file_wrapper yields chunks whose concatenation is the file",
     ]
     ctx.trusted += [
